@@ -1240,6 +1240,22 @@ func (h *verifH) randomHistory(k int) {
 			h.use(key.ref, key.x, node)
 			shape += "u"
 		default:
+			// mostly release something that is in use (map order is random: sort first)
+			var inUse []verifKey
+			for k, n := range h.outstanding {
+				if n > 0 {
+					inUse = append(inUse, k)
+				}
+			}
+			sort.Slice(inUse, func(i, j int) bool {
+				if inUse[i].ref != inUse[j].ref {
+					return inUse[i].ref < inUse[j].ref
+				}
+				return inUse[i].x < inUse[j].x
+			})
+			if len(inUse) > 0 && rnd.Intn(10) < 7 {
+				key = inUse[rnd.Intn(len(inUse))]
+			}
 			h.release(key.ref, key.x, node)
 			shape += "r"
 		}
